@@ -161,6 +161,18 @@ def run(R, tier, seed, driver_ok):
             Qi = np.linalg.qr(rng.randn(d, d))[0]
             init = (Qi * 10.0 ** rng.uniform(-1, 1, size=d)).dot(Qi.T)
         nc = [None, max(1, d - 1)][rep % 2]
+        if rep % 3 == 2:
+            # a geometry in which the learned order of the target neighbours is the reverse of their Euclidean order and only the
+            # NEAREST one has impostors inside its margin: class 0 is an a×b rectangle (nearest same-class point across the short
+            # side a, second nearest across the long side b), class 1 a tight cluster below it, and the initial transformation
+            # squeezes the long side; all of it rotated into d dimensions
+            a_, b_, gap = rng.uniform(1.0, 1.1), rng.uniform(1.45, 1.7), rng.uniform(1.2, 1.36)
+            P2 = np.array([[0, 0], [0, a_], [b_, 0], [b_, a_]] + [[b_ / 2 + rng.uniform(-0.1, 0.1), -gap - rng.uniform(0, 0.15)] for _ in range(int(rng.randint(4, 7)))])
+            P2[:4] += 1e-3 * rng.randn(4, 2)
+            Qg = np.linalg.qr(rng.randn(d, d))[0]
+            X = np.hstack([P2, np.zeros((len(P2), d - 2))]).dot(Qg.T); y = np.array([0] * 4 + [1] * (len(P2) - 4)); n = len(X)
+            init = np.diag([0.1] + [1.0] * (d - 1)).dot(Qg.T); nc = None; kk = 2
+            R.count('LMNN:reordered-target-neighbours geometry')
         init_label = init if isinstance(init, str) else 'array'
         if not isinstance(init, str) and nc is not None:
             init = np.ascontiguousarray(init[:nc])
